@@ -158,7 +158,7 @@ fn distinct_measure(prop: &str) -> &'static str {
 
 fn components() -> serde_json::Value {
     json!({
-        "real_code": ["rooc (current /repo working tree, feature rooc_verif)", "microlp 0.5.0", "good_lp", "clarabel", "sprs"],
+        "real_code": ["rooc (current /repo working tree, feature rooc_verif; solver functions, builder front doors and the pipe runner with its solver stages)", "microlp 0.5.0", "good_lp", "clarabel", "sprs"],
         "stub": ["web-time 1.1.0 -> /verif/sim/web-time-sim (thread-local simulated clock read by microlp)", "clock_gettime(CLOCK_MONOTONIC) defined by the harness executable: std::time::Instant reads the same simulated clock on simulated threads (Clarabel's timers; any std clock a change to rooc reads)"],
         "reference_model": ["exact rational oracle (Q over i128): integer enumeration + Fourier-Motzkin", "exact rational tableau", "exact per-variable feasible ranges by disjunctive expansion"],
         "real_clock": ["none on simulated threads; SystemTime (CLOCK_REALTIME) is not simulated and not read by rooc or its solvers"],
